@@ -336,7 +336,7 @@ def result_blocks(body, vname):
     return [b for b, i, s in body.stmts() if s['k'] == 'assign' and s['place']['l'] == 0 and s['rv']['k'] == 'agg' and s['rv'].get('path') == 'core::result::Result' and s['rv']['vname'] == vname]
 
 
-@rule('G5i', props=['C11', 'C06'], floor=1, configs=('all',))
+@rule('G5i', props=['C11', 'C06'], floor=2, configs=('all',))
 def g5i_identifier_padding(prog):
     """archetype::Identifier deserialisation: after reading (LEN+7)/8 bytes, the visitor returns Err exactly
     when a padding bit of the last byte is set, i.e. LEN % 8 != 0 and (last_byte >> (LEN % 8)) != 0,
@@ -347,63 +347,87 @@ def g5i_identifier_padding(prog):
     if f is None:
         r.viol('G5i', 'missing', '-', 'archetype identifier visitor not found')
         return r
-    body = f.body
-    loops = loop_exit_edge(body)
-    if len(loops) != 1:
-        r.viol('G5i', 'fill-loop', f.loc(), 'expected exactly one loop reading the identifier bytes')
-        return r
-    nb, sb, exit_t, body_t = loops[0]
-    errs = set(result_blocks(body, 'Err'))
-    oks = set(result_blocks(body, 'Ok'))
-    # error exits inside the loop (`?`) are not validator verdicts: only blocks reachable from loop exit
-    post = body.reachable(exit_t)
-    errs &= post
-    oks &= post
-    r.inst('%s: exit bb%d, %d Err / %d Ok result blocks after the loop' % (f.path[:60], exit_t, len(errs), len(oks)))
-    if not oks:
-        r.viol('G5i', 'no-ok', f.loc(), 'no Ok result after the fill loop')
-        return r
     bad = []
     idx_bad = []
     total = 0
+    npaths = 0
+    fill_bad = None
     for n in range(1, 25):
         nbytes = (n + 7) // 8
+        E = pathsem.analyse(prog, f, consts={'LEN': n})
+        rets = [p for p in E.paths if p.ended == 'return']
+        if E.truncated or not rets:
+            r.viol('G5i', 'not-analysable', f.loc(), 'path enumeration cut off for LEN=%d' % n)
+            return r
+        # verdict paths: the byte-reading loop ran to its end (its last `next` yielded None)
+        post = []
+        for p in rets:
+            nx = [(a_, v) for a_, v in p.conds if isinstance(a_, tuple) and a_[0] == 'next']
+            if nx and nx[-1][1] == 0:
+                post.append(p)
+                rng = [t for t in pathsem.subterms(nx[-1][0]) if t[0] == 'agg' and t[1].startswith('core::ops::Range')]
+                if not rng or rng[0][4] != (('c', 0), ('c', nbytes)):
+                    fill_bad = fill_bad or 'the byte loop does not run over 0..(LEN+7)/8 (LEN=%d)' % n
+            # one push per completed iteration
+            its = len([1 for a_, v in nx if v == 1])
+            pushes = len(p.calls(lambda e: e['name'] == 'push' and e['path'].startswith('alloc::vec')))
+            if nx and nx[-1][1] == 0 and pushes != its:
+                fill_bad = fill_bad or 'each loop iteration must push exactly one byte (LEN=%d: %d iterations, %d pushes)' % (n, its, pushes)
+        npaths += len(post)
+        if not post:
+            r.viol('G5i', 'no-ok', f.loc(), 'no path leaves the byte loop normally (LEN=%d)' % n)
+            return r
+
+        def is_byte(t):
+            return isinstance(t, tuple) and t[0] == 'call' and t[1].rsplit('::', 1)[-1] in ('get_unchecked', 'get_unchecked_mut', 'index', 'last', 'get', 'first', 'last_mut', 'pop') and 'core::slice' in t[1] or \
+                (isinstance(t, tuple) and t[0] == 'call' and t[1].startswith('alloc::vec') and t[1].rsplit('::', 1)[-1] in ('pop', 'last'))
+        # which byte is inspected
+        for p in post:
+            for a_, v in p.conds:
+                for t in pathsem.subterms(a_):
+                    if is_byte(t) and t[1].rsplit('::', 1)[-1] in ('get_unchecked', 'get_unchecked_mut', 'index', 'get') and len(t[2]) > 1:
+                        ix = t[2][1]
+                        if ix != ('c', nbytes - 1) and not idx_bad:
+                            idx_bad.append((n, pathsem.tstr(ix)))
         for v in range(256):
             total += 1
-            sym = {'byte': v}
 
-            def call_model(t, args, env, nbytes=nbytes, v=v, idx_bad=idx_bad, n=n):
-                fn = t['f']
-                if 'path' not in fn:
-                    return None
-                if fn['name'] in ('get_unchecked', 'get', 'index', 'last', 'get_unchecked_mut') and fn['path'].startswith('core::slice'):
-                    if fn['name'] != 'last' and len(args) > 1 and isinstance(args[1], int) and args[1] != nbytes - 1:
-                        idx_bad.append((n, args[1]))
-                    env['__byte'] = v
-                    return ('ref', '__byte') if fn['name'] != 'get' and fn['name'] != 'last' else ('enum', 1, (('ref', '__byte'),), 'core::option::Option', 'Some')
-                if fn['name'] in ('unwrap_unchecked', 'unwrap', 'expect') and args and isinstance(args[0], tuple) and args[0] and args[0][0] == 'enum':
-                    return args[0][2][0] if args[0][2] else None
-                if fn['name'] == 'len' and fn['path'].startswith(('alloc::vec', 'core::slice')):
-                    return nbytes
+            def leaf(t, v=v):
+                if is_byte(t):
+                    return v
+                if isinstance(t, tuple) and t[0] in ('f', 'down') and pathsem.mentions(t, is_byte):
+                    return v        # payload of get()/last()
                 return None
-            cp = cprop.CProp(prog, f, consts={'LEN': n}, call_model=call_model)
-            res = cp.run(exit_t, {}, errs | oks)
-            hit_err = any(b in res for b in errs)
-            hit_ok = any(b in res for b in oks)
+            verdicts = set()
+            for p in post:
+                feasible = True
+                for a_, tv in p.conds:
+                    if not pathsem.mentions(a_, is_byte) or isinstance(tv, tuple):
+                        continue
+                    if a_[0] == 'discr':
+                        continue      # Some/None of get()/last(): non-empty buffer => Some
+                    val = pathsem.evaluate(a_, leaf)
+                    if val is None:
+                        verdicts.add('?')
+                        continue
+                    if bool(val) != bool(tv):
+                        feasible = False
+                        break
+                if feasible:
+                    verdicts.add('Err' if isinstance(p.ret, tuple) and p.ret[0] == 'agg' and p.ret[2] == 'Err' else ('Ok' if isinstance(p.ret, tuple) and p.ret[0] == 'agg' and p.ret[2] == 'Ok' else '?'))
             want_err = (n % 8 != 0) and ((v >> (n % 8)) != 0)
-            if 'cutoff' in res or (hit_err and hit_ok) or hit_err != want_err or hit_ok == want_err:
-                bad.append((n, v, hit_err, hit_ok))
-    r.inst('constant propagation over %d (LEN, last byte) pairs' % total)
+            if verdicts != {'Err' if want_err else 'Ok'}:
+                bad.append((n, v, 'Err' in verdicts, 'Ok' in verdicts))
+    r.inst('%s: %d verdict paths over LEN=1..24' % (f.path[:60], npaths))
+    r.inst('path conditions evaluated for %d (LEN, last byte) pairs' % total)
     if idx_bad:
-        r.viol('G5i', 'wrong-byte', f.loc(), 'the validator inspects byte %d instead of the last byte for LEN=%d' % (idx_bad[0][1], idx_bad[0][0]))
+        r.viol('G5i', 'wrong-byte', f.loc(), 'the validator inspects byte %s instead of the last byte for LEN=%d' % (idx_bad[0][1], idx_bad[0][0]))
     if bad:
         n, v, he, ho = bad[0]
         r.viol('G5i', 'wrong-verdict', f.loc(),
                'padding validation is wrong for %d of %d (LEN, last byte) pairs, e.g. LEN=%d last byte=0b%s: Err reachable=%s Ok reachable=%s, but the byte %s padding bits set' % (len(bad), total, n, bin(v)[2:].zfill(8), he, ho, 'has' if (n % 8 and v >> (n % 8)) else 'has no'))
-    # the buffer is filled by exactly (LEN+7)/8 reads: loop body pushes once, `?` on missing element
-    pushes = [(b, t) for b, t in body.calls(lambda c: c['name'] == 'push' and c['path'].startswith('alloc::vec'))]
-    if len(pushes) != 1 or not body.edge_dominates((sb, body_t), pushes[0][0]):
-        r.viol('G5i', 'fill-loop-push', f.loc(), 'each loop iteration must push exactly one byte')
+    if fill_bad:
+        r.viol('G5i', 'fill-loop-push', f.loc(), fill_bad)
     return r
 
 
